@@ -76,6 +76,20 @@ def after_failed_shapes(ctx):
             items.append({'wf': wf, 'oc': oc, 'script': script, 'input': inputs[-1], 'inputs': inputs, 'schedule': None,
                           'extra': {'runs': runs, 'overlap': False, 'timeout_ms': 30000}, 'want': ['success'], 'want_override': override,
                           'nomeaning': True, 'mode': 'after-failed', 'at': 'after-failed %s' % (pattern,)})
+        # the first run ends with a run-time evaluation error while the workflow's output is still pending (not: declared
+        # impossible); the later runs get an input the expression can digest
+        from vlib import fexpr
+        wf2 = {'steps': {'a': {'kind': 'plugin', 'pstep': 'work', 'fields': {'input': tmap({'id': lit('a')})}},
+                         'b': {'kind': 'plugin', 'pstep': 'work', 'fields': {'input': tmap({'id': lit('b'), 'deps': tmap({
+                             't': ref('steps.a.outputs.success.tok'), 'v': fexpr('stringToInt($.input.x)', ['input.x'])})})}}},
+               'outputs': {'success': tmap({'r': ref('steps.b.outputs.success.tok')})}}
+        for pattern in ([('zz', '12', '13')] if ctx.quick else [('zz', '12', '13'), ('zz', 'yy', '7'), ('5', 'zz', '6')]):
+            inputs = [dict(base, x=v) for v in pattern]
+            runs = [{'input': i, 'start_delay_ms': 0} for i in inputs]
+            override = {k: (['success'] if v.isdigit() else ['error']) for k, v in enumerate(pattern)}
+            items.append({'wf': wf2, 'oc': {'a': okoc(), 'b': okoc()}, 'script': script, 'input': inputs[-1], 'inputs': inputs, 'schedule': None,
+                          'extra': {'runs': runs, 'overlap': False, 'timeout_ms': 30000}, 'want': ['success'], 'want_override': override,
+                          'nomeaning': True, 'mode': 'after-failed', 'at': 'after-evaluation-failure %s' % (pattern,)})
         return items
     return f
 
